@@ -20,6 +20,18 @@ use std::os::unix::io::AsRawFd;
 use io_uring;
 
 pub(super) fn start_background_workers(fsync_schedule: FsyncSchedule) -> Arc<mpsc::Sender<String>> {
+    // Miri cannot execute io_uring_setup: a channel-only worker stands in for the background thread
+    #[cfg(all(feature = "verif", miri))]
+    {
+        let _ = fsync_schedule;
+        let (tx, rx) = mpsc::channel::<String>();
+        let (del_tx, del_rx) = mpsc::channel::<String>();
+        let _ = DELETION_TX.set(Arc::new(del_tx));
+        std::mem::forget(rx);
+        std::mem::forget(del_rx);
+        return Arc::new(tx);
+    }
+    #[allow(unreachable_code)]
     let (tx, rx) = mpsc::channel::<String>();
     let tx_arc = Arc::new(tx);
     let (del_tx, del_rx) = mpsc::channel::<String>();
@@ -34,6 +46,8 @@ pub(super) fn start_background_workers(fsync_schedule: FsyncSchedule) -> Arc<mps
     };
 
     thread::spawn(move || {
+        #[cfg(feature = "verif")]
+        crate::wal::verif::set_thread_class(2);
         let mut pool = pool;
         let tick = tick;
         let del_rx = del_rx;
@@ -112,6 +126,10 @@ pub(super) fn start_background_workers(fsync_schedule: FsyncSchedule) -> Arc<mps
                             }
                         }
 
+                        #[cfg(feature = "verif")]
+                        for (_fd, p) in fsync_batch.iter() {
+                            crate::wal::verif::io_event("bg_fsync", p, 0, 0);
+                        }
                         // Single syscall to submit all fsync operations!
                         match ring.submit_and_wait(fsync_batch.len()) {
                             Ok(submitted) => {
@@ -145,6 +163,8 @@ pub(super) fn start_background_workers(fsync_schedule: FsyncSchedule) -> Arc<mps
                 } else {
                     for path in unique.iter() {
                         if let Some(storage) = pool.get_mut(path) {
+                            #[cfg(feature = "verif")]
+                            crate::wal::verif::io_event("bg_fsync", path, 0, 0);
                             if let Err(e) = storage.flush() {
                                 debug_print!("[flush] flush error for {}: {}", path, e);
                             }
@@ -170,6 +190,8 @@ pub(super) fn start_background_workers(fsync_schedule: FsyncSchedule) -> Arc<mps
                 delete_pending.insert(path);
             }
 
+            #[cfg(feature = "verif")]
+            crate::wal::verif::bg_cycle();
             // Phase 5: Periodic cleanup
             let n = tick.fetch_add(1, Ordering::Relaxed) + 1;
             if n >= 1000 {
@@ -183,6 +205,8 @@ pub(super) fn start_background_workers(fsync_schedule: FsyncSchedule) -> Arc<mps
 
                     // Perform batched deletions now that mmaps/fds are dropped
                     for path in delete_pending.drain() {
+                        #[cfg(feature = "verif")]
+                        crate::wal::verif::io_event("remove", &path, 0, 0);
                         match fs::remove_file(&path) {
                             Ok(_) => debug_print!("[reclaim] deleted file {}", path),
                             Err(e) => {
@@ -190,6 +214,8 @@ pub(super) fn start_background_workers(fsync_schedule: FsyncSchedule) -> Arc<mps
                             }
                         }
                     }
+                    #[cfg(feature = "verif")]
+                    crate::wal::verif::bg_reclaim_pass();
                 }
             }
         }
